@@ -2,6 +2,7 @@
 import collections
 import copy
 import itertools
+import os
 import sqlite3
 
 from simkit import clock as simclock
@@ -62,6 +63,8 @@ class Bench:
 
   def save(self):
     self.saved = None
+    if os.environ.get('VERIF_FORCE_REBUILD') == '1':
+      return  # self-test knob: the slow path must give the same results as the snapshot path
     try:
       if self.cfg['backend'] == 'ram':
         self.saved = ('ram', copy.deepcopy(self.real_ds._owners))  # pylint: disable=protected-access
